@@ -5,7 +5,7 @@ from .common import TRUSTED, ASSUMPTIONS, LEVEL_NOTE, TECHNIQUE
 
 LEVEL = "proof"
 THEOREMS = ['C20_bop_iff','C20_single_component','C20_refl','C20_symm','C20_mul_eq_iff','C20_mul_single_cell','C20_beyond_tolerance','C20_absDiffEq_fin','C20_relativeEq_fin','C20_ulpsEq_fin']
-RULE = ("bcmp (==, abs_diff_eq, relative_eq, ulps_eq) on pairs of binomial opinions differing in every subset of the four components by "
+RULE = ("bcmpc (the same comparisons plus the scalar impl's answer per component; opinion answer = conjunction, checked exactly: components equal through different branches -- absolute tolerance vs ulps/relative --, tolerances equal to a rounded component difference and its float neighbours, NaN/inf components); bcmp (==, abs_diff_eq, relative_eq, ulps_eq) on pairs of binomial opinions differing in every subset of the four components by "
         "{0, 1 ulp, tol/2, 2*tol, large} x tolerances {0, default, 1e-6, huge} x maxulps {0,1,4}; each pair also reversed (symmetry) and "
         "paired with itself (reflexivity) as cross-case checks; meq on multinomial opinions differing in one cell, sizes 1..4 and 2-D, "
         "families A/M/D/N; f32+f64. non-trivial = distinct case line")
@@ -59,6 +59,58 @@ def cases(rng, tier):
             out.append((G.line("bcmp", fmt, "B.o", ints, x + y + [tol, maxrel]), ("sym", gid, 0)))
             out.append((G.line("bcmp", fmt, "B.o", ints, y + x + [tol, maxrel]), ("sym", gid, 1)))
             out.append((G.line("bcmp", fmt, "B.o", ints, x + x + [tol, maxrel]), ("refl", gid, 2)))
+            out.append(G.line("bcmpc", fmt, "B.o", ints, x + y + [tol, maxrel]))
+        # the same comparison with the per-component answers of the scalar type's own impl (op bcmpc; checked exactly):
+        # (a) components that are equal through DIFFERENT branches of the scalar comparison (one only within the absolute
+        #     tolerance -- tiny values, huge ulps distance --, another only within max_ulps / max_relative -- a few ulps apart
+        #     at a value in [0.5, 1], beyond the absolute tolerance), and near misses of either kind;
+        # (b) a tolerance that equals the rounded difference of a component exactly, or its float neighbours (operands more
+        #     than a factor 2 apart, so that the subtraction rounds);  (c) NaN / infinities in single components
+        f32 = fmt == "f32"
+        for _ in range(N):
+            kind = rng.choice([1, 2, 3, 3])
+            x = [float(v) for v in G.rand_bop(rng, rng.choice([8, 16, 64]))]
+            if rng.random() < 0.5:
+                x = G.float_bop(rng, fmt)
+            y = list(x)
+            z = rng.random()
+            tol, maxrel, maxulps = e, e, 4
+            if z < 0.55:        # (a)
+                tol = rng.choice([e, e / 2, 2 * e, 1e-12 if not f32 else 1e-6, 0.0])
+                maxulps = rng.choice([1, 2, 4, 4, 8])
+                maxrel = rng.choice([e, 4 * e, 1e-9 if not f32 else 1e-4])
+                idx = list(range(4)); rng.shuffle(idx)
+                i_abs, i_ulp = idx[0], idx[1]
+                # abs-only component: value 0 (or tiny) against a tiny value within (or just beyond) the absolute tolerance
+                x[i_abs] = rng.choice([0.0, 0.0, G.round_fmt(fmt, tol * rng.random() / 4)])
+                y[i_abs] = G.round_fmt(fmt, x[i_abs] + (tol if tol > 0 else e) * rng.choice([0.05, 0.5, 0.99, 1.0, 1.01, 3.0]))
+                # ulps/relative-only component: a value in [0.5, 1) a few ulps away (beyond the absolute tolerance when tol <= e)
+                x[i_ulp] = G.round_fmt(fmt, 0.5 + rng.random() * 0.49)
+                y[i_ulp] = G.step(fmt, x[i_ulp], rng.choice([1, 2, 3, 4, 5, 8, 9]) * rng.choice([1, -1]))
+                if rng.random() < 0.3:
+                    j = idx[2]
+                    y[j] = perturb(rng, fmt, x[j], tol, rng.randint(0, 4))
+            elif z < 0.85:      # (b)
+                i = rng.randrange(4)
+                x[i] = G.round_fmt(fmt, rng.choice([0.6, 0.8, 0.7, 0.9, 0.55 + 0.4 * rng.random()]))
+                y[i] = G.round_fmt(fmt, rng.choice([0.1, 0.05, 0.2, 0.3 * rng.random()]))
+                if rng.random() < 0.5:
+                    x[i], y[i] = y[i], x[i]
+                import struct as _st
+                d = abs(x[i] - y[i])
+                if f32:
+                    d = _st.unpack(">f", _st.pack(">f", d))[0]      # the f32 subtraction (exact in f64, then rounded once)
+                tol = G.step(fmt, d, rng.choice([0, 0, 0, 1, -1]))
+                maxrel = rng.choice([0.0, e])
+                maxulps = rng.choice([0, 4])
+            else:               # (c)
+                i = rng.randrange(4)
+                sp = rng.choice([float("nan"), float("inf"), float("-inf")])
+                x[i] = sp
+                y[i] = rng.choice([sp, sp, y[i], float("inf")])
+                tol = rng.choice([e, 0.5, float("inf")])
+            out.append(G.line("bcmpc", fmt, "B.o", [kind, maxulps], x + y + [tol, maxrel]))
+            out.append(G.line("bcmpc", fmt, "B.o", [kind, maxulps], y + x + [tol, maxrel]))
         for _ in range(N // 2):
             if rng.random() < 0.7:
                 n = rng.choice([1, 2, 3, 4]); ints = [n]
